@@ -44,4 +44,16 @@ NOTES = {
   "note": "Value constructors are parameters. Histories outside the property's quantifier (type conversion, plain Removed) are exercised but only compared with the model, not required to load.",
   "technique": "Lean 4 theorems (writer-side step invariance, extension relation, packed gate) + cross-module differential correspondence",
  },
+ "C05": {
+  "text": "The schema tree, its on-disk formats, diff_schema and the file loader are modelled in Lean and tied to the code by decoding/diffing the implementation's own schema bytes for every zoo type, random schemas and mutations. Theorems: diff reports no difference exactly when two data schemas have the same shape (names and memory annotations erased, variant names kept) — by mutual induction over schema trees; the loader with the real schema codec yields a schema error exactly when shapes differ and otherwise reads the payload at the stored version; identical grammars read identical values; a wrong magic, newer library version or newer data version is rejected from the 16 header bytes alone. Ordered pairs of zoo types are saved as T and loaded as U against the model, which demands rejection whenever the two types do not describe the same bytes.",
+  "design_ref": "§6 C05",
+  "note": "Whether a type's schema faithfully describes its bytes is C12's subject; the cross-type suite uses the wire grammars (not the schemas) to decide when rejection is mandatory, so unfaithful schemas surface here as accepted-but-different-bytes.",
+  "technique": "Lean 4 theorems (diff ⇔ shape equality, loader gate, header) + differential correspondence on schema bytes and cross-type loads",
+ },
+ "C13": {
+  "text": "Round trip of arbitrary well-formed schema values (all 20 node kinds incl. trait definitions) through library formats 2, 1 and 0 is a Lean theorem (mutual induction over six mutually recursive types, fuel-driven reader, any trailing bytes): format 2 is exact, format 1 loses only method receiver/async flags (nothing on data schemas), format 0 strips memory annotations; the loader is shown to compare exactly the decoded stored schema; diff is reflexive on data schemas (Undefined is the coded exception) and each single wire-altering change is a proved difference. The formats, diff and layout_compatible are compared with the real code on zoo schemas, random schemas, single-step mutations and malformed sections.",
+  "design_ref": "§6 C13",
+  "note": "Format 0 has no writer in the code base: encSchema 0 is the reconstruction of the historic writer as the inverse of the reader's format-0 branches (trusted). Trait names must not contain '+' (the writer's separator) — part of well-formedness.",
+  "technique": "Lean 4 theorems (mutual induction: codec round trip, reflexivity, completeness) + differential correspondence on schema bytes",
+ },
 }
